@@ -72,7 +72,8 @@ def canon_impl(obs, case):
             frames.append([f[0], [[k, unquote(v, encoding='utf-8', errors='replace') if k == 'grpc-message' else v]
                                   for k, v in f[1]], bool(f[2])])
         elif f[0] == 'D':
-            frames.append(['D'] if (f[1] == REPLY_HEX and not f[2]) else ['D', f[1], f[2]])
+            good = (f[1] == 'BIG') if case.get('big') else (f[1] == REPLY_HEX)
+            frames.append(['D'] if (good and not f[2]) else ['D', f[1], f[2]])
         elif f[0] == 'R':
             frames.append(['R'] if f[1] == 0 else ['R', f[1]])
         else:
@@ -252,6 +253,10 @@ def oracle(case, obs, can):
         sig = {'kind': kind, 'end': ec}
         sig.update(kw)
         bad.append((what, sig))
+    if obs['hang'] and obs.get('where') in ('I', 'M', 'T', 'C') and not obs.get('paused'):
+        # the handler never got out of a sending call although the client is reading and returning credit
+        fail('stuck-send', 'the handler is stuck in a sending call (%s) on a writable connection whose client '
+             'returns flow-control credit; frames seen: %s' % (obs.get('where'), [f[0] for f in can['frames']]))
     if obs['hang'] and obs['end'] is not None:
         fail('stuck', 'the handler coroutine ended (%s) but request_handler never finished' % obs['end'])
     for f in obs['frames']:
@@ -283,6 +288,17 @@ def oracle(case, obs, can):
             fail('unimplemented', 'unknown method answered %r instead of UNIMPLEMENTED' % (d,), defect='path')
         if ndata:
             fail('reject-data', 'message sent for an unacceptable request', defect=info[0])
+        return bad
+    if cls == 'accept' and info.get('expired'):
+        # the deadline had passed when the request arrived: DEADLINE_EXCEEDED, and nobody is asked to work on it
+        if end != 'notrun':
+            fail('expired-ran', 'the deadline had expired on arrival (grpc-timeout 0) but the handler was called')
+        if state not in ('MT', 'MR'):
+            fail('no-terminal', 'request whose deadline had expired on arrival left without a terminal response',
+                 reply='expired')
+        elif st is None or st[0] != '4':
+            fail('wrong-status', 'deadline expired on arrival: expected status 4, wire says %r' % (st,),
+                 want='4', got=(st[0] if st else None))
         return bad
     # accepted (or unclear) request ------------------------------------------------------------
     if not streaming and ndata > 1:
@@ -378,11 +394,11 @@ STD_BODY = {'msgs': 1, 'partial': False, 'eof': True}
 
 
 def mk(ops, fin, card='UU', body=None, headers=None, policy='honour', fin2=None, ext='none', ext_at=None,
-       paused0=False, hooks_await=False):
+       paused0=False, hooks_await=False, big=False):
     return {'headers': [list(h) for h in (headers if headers is not None else BASE)], 'card': card,
             'body': dict(body or STD_BODY), 'ops': list(ops), 'fin': list(fin), 'policy': policy,
             'fin2': list(fin2 or ['ret']), 'ext': ext, 'ext_at': ext_at, 'paused0': bool(paused0),
-            'hooks_await': bool(hooks_await)}
+            'hooks_await': bool(hooks_await), 'big': bool(big)}
 
 
 # GRPCError / trailers messages that need escaping on the wire: what arrives (decoded) must be what was raised
@@ -498,7 +514,7 @@ def gen_random(rng, classes):
     body = dict(rng.choice(BODIES))
     body['framing'] = rng.choice(['one', 'split', 'sep'])
     return mk(ops, fin, rng.choice(CARDS), body, headers, policy, fin2, ext, ext_at,
-              paused0=rng.random() < 0.15, hooks_await=rng.random() < 0.3)
+              paused0=rng.random() < 0.15, hooks_await=rng.random() < 0.3, big=rng.random() < 0.04)
 
 
 def build_cases(ctx, res):
@@ -535,6 +551,15 @@ def build_cases(ctx, res):
             for fin in FINS_X:
                 if fin[0] != 'wait':
                     add('reply-path-suspends', mk(ops, fin, card, hooks_await=True))
+    # 1d. replies larger than the client's connection window (it advertises 1 MiB per stream, 65535 per
+    #     connection, and returns connection-level credit as it reads): the reply path depends on that credit
+    for ops in ([ 'M'], ['M', 'M'], ['R', 'M', 'S', 'M'], ['I', 'M', ['T', 0, None]], ['M', ['T', 5, 'nf']],
+                ['M', 'M', 'M', 'C']):
+        for card in CARDS:
+            for eof in (True, False):
+                for fin in (['ret'], ['exc'], ['grpc', 8, 'big']):
+                    add('big-reply', mk(ops, fin, card, {'msgs': 1, 'partial': False, 'eof': eof},
+                                        BASE + [FAR] if eof else BASE, big=True))
     # 1c. messages that need escaping: the decoded grpc-message must be the raised / the explicit one
     for msg in TRICKY:
         for card in ('UU', 'SS'):
@@ -542,7 +567,10 @@ def build_cases(ctx, res):
             add('tricky-message', mk(['M', ['T', 11, msg]], ['ret'], card))
             add('tricky-message', mk([['T', 3, msg]], ['exc'], card, {'msgs': 1, 'partial': False, 'eof': False}))
     # 2. handler programs, exhaustive to the depth bound, x 4 cardinalities x 5 endings (standard request)
-    depth = ctx.n(4, 5) if not ctx.search else 4
+    # enumeration DEPTHS depend on the tier only (ctx.n() multiplies by 3 in search mode, which must never reach an
+    # exponent); in search mode (leg 3) the enumerations keep their quick depth and only the PRNG samples grow
+    deep = ctx.tier == 'thorough' and not ctx.search
+    depth = 5 if deep else 4
     res.extra['exhaustive_depth'] = depth
     for ops in all_programs(depth):
         for card in CARDS:
@@ -554,7 +582,7 @@ def build_cases(ctx, res):
                 add('exhaustive', mk(ops, fin, card))
     # 2b. the extended alphabet (calls failing part-way, paused transport) x every ending incl. the handler's
     #     own TimeoutError / StreamTerminatedError / ProtocolError x {no deadline, deadline far away}
-    dx = ctx.n(2, 3)
+    dx = 3 if deep else 2
     res.extra['exhaustive_depth_extended_alphabet'] = dx
     for ops in all_programs(dx, OPS_X):
         for card in ('UU', 'SS'):
@@ -570,7 +598,7 @@ def build_cases(ctx, res):
                     add('exhaustive-extended', mk(ops, fin, card, {'msgs': 1, 'partial': False, 'eof': False},
                                                   BASE + [FAR], pol, fin2))
     # 3. environment matrix on short programs: bodies x END_STREAM x events x policies x deadline
-    d2 = ctx.n(2, 3)
+    d2 = 3 if deep else 2
     env = []
     for ops in all_programs(d2):
         for fin in FINS + [['exc', 'timeout']]:
@@ -581,7 +609,7 @@ def build_cases(ctx, res):
                                           ('swallow', ['grpc', 7, None]), ('swallow', ['exc', 'timeout'])):
                             for tmo in (False, True):
                                 env.append((ops, fin, card, body, ext, pol, fin2, tmo))
-    want = ctx.n(9000, 120000)
+    want = 27000 if ctx.search else ctx.n(9000, 120000)
     if len(env) > want:
         env = rng.sample(env, want)
     else:
@@ -589,7 +617,7 @@ def build_cases(ctx, res):
     for ops, fin, card, body, ext, pol, fin2, tmo in env:
         add('environment', mk(ops, fin, card, body, BASE + [FAR] if tmo else BASE, pol, fin2, ext))
     # 4. PRNG: deeper programs, events during a Sleep, deadline inside a Sleep, framings, any request class
-    for _ in range(ctx.n(5000, 60000)):
+    for _ in range(15000 if ctx.search else ctx.n(5000, 60000)):
         add('random', gen_random(rng, classes))
     return cases, tags
 
